@@ -29,6 +29,7 @@ import (
 
 	"verif/checks/c08/probe"
 	"verif/engine/common"
+	"verif/sqlgen"
 )
 
 // ---------------------------------------------------------------- generic history machine
@@ -213,6 +214,7 @@ func parserMachine() (*machine, func(pre []int, ad pAdhoc, pi int, step func(int
 	posBad := probe.MustTokenize(pPosBad)
 	rec := probe.MustTokenize(pRecovery)
 	canc := probe.MustTokenize(pCancel)
+	emptyIn := probe.MustTokenize(";")
 	deep := probe.MustTokenize(probe.NestSQL(probe.MaxNest() + 3))
 	probes := probe.ParserProbes()
 
@@ -225,6 +227,22 @@ func parserMachine() (*machine, func(pre []int, ad pAdhoc, pi int, step func(int
 		{op{"parse-invalid", "error", ""}, func(s *pinst) { s.p.ParseFromModelTokens(invalid) }},
 		{op{"parsepos-invalid", "positions", ""}, func(s *pinst) { s.p.ParseFromModelTokensWithPositions(posBad) }},
 		{op{"ctx-live", "parse", ""}, func(s *pinst) { s.p.ParseContextFromModelTokens(context.Background(), valid) }},
+		// the usual "ctx, cancel := ...; defer cancel()" pattern: the context of a finished call is cancelled afterwards
+		{op{"ctx-live-then-cancel", "parse", ""}, func(s *pinst) {
+			ctx, cancel := context.WithCancel(context.Background())
+			s.p.ParseContextFromModelTokens(ctx, valid)
+			cancel()
+		}},
+		{op{"ctx-empty-then-cancel", "error", ""}, func(s *pinst) {
+			ctx, cancel := context.WithCancel(context.Background())
+			s.p.ParseContextFromModelTokens(ctx, emptyIn)
+			cancel()
+		}},
+		{op{"ctx-invalid-then-cancel", "error", ""}, func(s *pinst) {
+			ctx, cancel := context.WithCancel(context.Background())
+			s.p.ParseContextFromModelTokens(ctx, invalid)
+			cancel()
+		}},
 		{op{"ctx-cancelled", "cancel", ""}, func(s *pinst) {
 			s.p.ParseContextFromModelTokens(probe.NewCountCtx(0, context.Canceled), canc)
 		}},
@@ -437,7 +455,7 @@ func Check() *common.Check {
 	return &common.Check{
 		ID:    "C08",
 		Level: "model_checking",
-		Rule: "every history over the parser alphabet (14 operations: Parse valid/invalid, ParseWithPositions multi-line invalid, ParseContext live / already cancelled / cancelled at the 6th poll, " +
+		Rule: "every history over the parser alphabet (17 operations: Parse valid/invalid, ParseWithPositions multi-line invalid, ParseContext live / already cancelled / cancelled at the 6th poll, " +
 			"ParseWithRecovery, parse past the recursion limit, ApplyOptions strict / mysql, Reset, Release, PutParser with the same object then used as the next holder's, NewParser) and the tokenizer alphabet " +
 			"(11 operations: Tokenize valid / unterminated string / comments / larger than MaxInputSize, TokenizeContext cancelled / cancelled at the 4th poll, SetDialect, SetLogger, Reset, PutTokenizer, New) of length 0..4 (quick) / 0..5 (thorough), " +
 			"each executed from a newly constructed instance with the reference configuration in lock-step, followed by each of 10 parser / 6 tokenizer probes on its own re-execution; plus one-operation histories feeding every proper token prefix of 10 statements and 6 inputs nested past the depth limit to each of 4 parse entry points, " +
@@ -508,6 +526,22 @@ func Check() *common.Check {
 			for _, k := range []string{"parens", "signs", "parens-bad", "case", "subquery", "cte"} {
 				inputs = append(inputs, lim[k])
 			}
+			// every statement of the model grammar once (successful parses of every construct leave no residue
+			// either: added after the independently seeded change seeded/C07b leaked one nesting level per
+			// joined derived table and was invisible to the fixed alphabet)
+			seenStmt := map[string]bool{}
+			sqlgen.All(false, func(name string, s sqlgen.S) {
+				if strings.HasPrefix(name, "shape") || strings.HasPrefix(name, "holeshape") || strings.HasPrefix(name, "subsets") {
+					if !e.Thorough() || strings.HasPrefix(name, "shape3") {
+						return
+					}
+				}
+				sql := s.SQL()
+				if !seenStmt[sql] {
+					seenStmt[sql] = true
+					inputs = append(inputs, sql)
+				}
+			})
 			pprobes := probe.ParserProbes()
 			for _, in := range inputs {
 				for _, en := range entries {
